@@ -33,6 +33,7 @@ import ScalesModel.Adapter.LB
 import ScalesModel.Adapter.Resurrector
 import ScalesModel.Adapter.ResPool
 import ScalesModel.Adapter.HeapC09
+import ScalesModel.Adapter.ApertureHeap
 open Scales
 
 def components : List Comp := [
@@ -66,7 +67,9 @@ def components : List Comp := [
   ⟨"resurrector", Scales.Res.comp.run⟩,
   ⟨"respool", Scales.Pool.comp.run⟩,
   ⟨"lbgate", Scales.LB.compGate.run⟩,
-  ⟨"heap9", Scales.Heap.comp9.run⟩
+  ⟨"heap9", Scales.Heap.comp9.run⟩,
+  ⟨"aperture3", Scales.LB.comp3A.run⟩,
+  ⟨"aperture4", Scales.LB.comp4A.run⟩
 ]
 
 structure CaseAcc where
